@@ -187,36 +187,11 @@ func (t *tally) onRes(b batch, res *batchRes) {
 	}
 }
 
-// TEMPORARY-KNOWN-BEGIN (development only; removed before delivery): signatures proposed as known
-// findings, excluded here so that the search behind them and the exit code can be tested before
-// KNOWN_FINDINGS.txt carries them.
-var tempKnown = map[string]bool{
-	"alloc:dep:rpc/v2/ndr": true,
-}
-
-func evalTemp(c Case) evid.Verdict {
-	v := Eval(c)
-	if tempKnown[v.Sig] {
-		return evid.Pass()
-	}
-	return v
-}
-
-// TEMPORARY-KNOWN-END
-
 func (t *tally) fail(check string, c Case, v evid.Verdict) {
 	t.mu.Lock()
 	t.sigs[v.Sig]++
-	first := t.sigs[v.Sig] == 1
 	t.mu.Unlock()
-	if tempKnown[v.Sig] { // TEMPORARY-KNOWN
-		if first {
-			fmt.Printf("KNOWN-FINDING: (candidate, temporary list) property=C04 key=%s\n", v.Sig)
-		}
-		t.r.Label("known-finding-candidate:" + v.Sig)
-		return
-	}
-	t.r.Label("violation-sig:" + v.Sig)
+	t.r.Label("failure-sig:" + v.Sig)
 	t.r.Violation(check, c, v)
 }
 
@@ -307,8 +282,8 @@ func selfTests(r *evid.Run) bool {
 
 func TestProp(t *testing.T) {
 	r := evid.Start(t, "C04", "exploration")
-	evid.Reg(r, checkEnum, evalTemp) // TEMPORARY-KNOWN: Eval
-	evid.Reg(r, checkFuzz, evalTemp) // TEMPORARY-KNOWN: Eval
+	evid.Reg(r, checkEnum, Eval)
+	evid.Reg(r, checkFuzz, Eval)
 	if r.Replay() {
 		return
 	}
